@@ -6,6 +6,9 @@ import Verif.Model.Docker
 import Verif.Model.Merge
 import Verif.Model.Resources
 import Verif.Driver.Codec
+import Verif.Driver.ExecEnv
+import Verif.Driver.LogQLCodec
+import Verif.Gen.Offload
 /-! Line-protocol driver: one request per line on stdin, one reply per line on stdout.
 Core-only (no Mathlib), compiled as `lean_exe driver`. -/
 open Sexp
@@ -90,6 +93,19 @@ def handle (req : Sexp) : Sexp :=
     let cls := match r.1 with
       | none => "ok" | some .build => "build" | some .list => "list" | some .open => "open" | some .stream => "stream"
     .list [sym cls, ridsOut r.2.opened, ridsOut r.2.closed]
+  | some "logeval", [cp, q, recs, lim] =>
+    match q.args with
+    | [sel, stages] =>
+      let st := stages.items.map LogQLCodec.stage
+      if !(st.all (·.2)) then .list [sym "err", sym "build"] else
+      let query : LogQL.LogQuery := ⟨sel.items.map LogQLCodec.matcher, st.map (·.1)⟩
+      -- the specification value: nothing offloaded (capability independence is C01's theorem and is
+      -- checked against the implementation by running it under every capability configuration)
+      let _ := cp
+      match LogQL.specEntries ExecEnv.env query (recs.items.map LogQLCodec.recOf) lim.toInt with
+      | .ok es => LogQLCodec.streamsOut (LogQL.group es)
+      | .error _ => .list [sym "err", sym "build"]
+    | _ => .list [sym "bad-op"]
   | _, _ => .list [sym "bad-op"]
 
 partial def loop (h : IO.FS.Stream) (out : IO.FS.Stream) : IO Unit := do
